@@ -1,8 +1,8 @@
 (* Pinned statements of property C17: fails to compile if a theorem of
    Props/C17.v is weakened or renamed.  Created by tools/mkpinned.py. *)
-From Coq Require Import String.
+From Coq Require Import String ZArith.
 From QV Require Import Rt.Prelude Rt.Amount Rt.Quantity Rt.Serde Macro.Defs Gen.Prefixes Gen.Catalogue Gen.Config
-  Gen.Kernels Macro.Inst Amount.F64 Proofs.Laws Proofs.Instances Proofs.C09 Proofs.C17.
+  Gen.Kernels Macro.Inst Amount.F64 Amount.DecModel Amount.Dec Amount.DecCodec Proofs.Laws Proofs.Instances Proofs.C09 Proofs.C17.
 From QV Require Import Props.C17.
 Local Open Scope string_scope.
 Check C17_unit_roundtrip : forall (g : gen_def SIPrefix), nodupb (gd_VARIANTS g) = true ->
@@ -22,4 +22,6 @@ Check C17_distinct_values_distinct_serialisations : forall (am : Amount) (enc : 
   de_qty am dcd g (ser_qty am enc g x) = Some x -> de_qty am dcd g (ser_qty am enc g y) = Some y ->
   ser_qty am enc g x = ser_qty am enc g y -> x = y.
 Check C17_f64_codec : forall x, dcd_f64 (enc_f64 x) = Some x.
+Check C17_decimal_codec : forall d : dec, (0 <= d_nfd d <= 18)%Z -> (Z.abs (d_coeff d) <= i128_max)%Z ->
+  dcd_dec (enc_dec d) = Some d.
 Check C17_tree_facts : forallb serde_ok all_entries = true /\ serde_feature_wired = true.
